@@ -212,13 +212,14 @@ Proof.
       * pose proof (lsum_upd is_ok _ _ _ (KStopRun (length (stops (router s)))) Ei) as Q. cbn in Q. lia.
       * pose proof (lsum_upd is_err _ _ _ (KStopRun (length (stops (router s)))) Ei) as Q. cbn in Q. lia.
   - (* KR *)
+    destruct (klock s) eqn:Ekl; [discriminate|].
     destruct (allowed a) eqn:Al; [|discriminate].
     destruct (step fx (router s) a) as [r'|] eqn:Er; [|discriminate]. inversion H; subst; clear H.
     destruct (allowed_stops _ _ _ _ Al Er) as (L & R & S).
     constructor; cbn; auto.
     + eapply step_inv; eauto.
     + apply S. exact Isr.
-    + intros i p Hp. apply caller_ok_router; eauto.
+    + intros i p Hp. specialize (Ic _ _ Hp). co_other Ic. intros t Ht. rewrite L. auto.
   - (* KStopRet *)
     destruct (nth_error (callers s) i) as [[| | | |t| | | |]|] eqn:Ei; try discriminate.
     destruct (nth_error (stops (router s)) t) as [[| | |]|] eqn:Et; try discriminate. inversion H; subst; clear H.
@@ -335,6 +336,7 @@ Proof.
   - (* inside Router.Stop *)
     pose proof (co_thread _ _ _ (Ic _ _ Hp) t eq_refl) as Lt.
     destruct (nth_error (stops (router s)) t) as [pc|] eqn:Et; [|apply nth_error_None in Et; lia].
+    destruct (klock s) eqn:Hk; [auto|].
     destruct pc.
     + exists (KR (AHostStop t)). eexists. cbn. rewrite Et. reflexivity.
     + exists (KR (ACloseAll t)). eexists. cbn. rewrite Et. reflexivity.
@@ -544,7 +546,7 @@ Proof.
   - destruct (nth_error (callers s) i) as [[| | | | | | | |]|] eqn:Ei; try discriminate.
     cbn in H. inversion H; subst; cbn. unfold rmeas. cbn. rewrite lsum_app. cbn.
     pose proof (lsum_upd cmeas _ _ _ (KStopRun (length (stops (router s)))) Ei) as Q. cbn in Q. lia.
-  - destruct (allowed a) eqn:Al; [|discriminate].
+  - destruct (klock s); [discriminate|]. destruct (allowed a) eqn:Al; [|discriminate].
     destruct (step fx (router s) a) as [r'|] eqn:Er; [|discriminate]. inversion H; subst; cbn.
     pose proof (allowed_decreases _ _ _ _ Al Er). lia.
   - destruct (nth_error (callers s) i) as [[| | | |t| | | |]|] eqn:Ei; try discriminate.
